@@ -197,6 +197,54 @@ def r5_registry_only_emptied_by_pickup(ck, cx, cls):
     ck.floor('R5', n, 3, 'registry calls in the Twisted client protocol')
 
 
+
+def r11_client_admits_every_reply(ck, cx, rule='R11'):
+    """Replies are paired by transaction id, so the client must be handed EVERY checked frame of a segment.  The receive call passes
+    a unit list to the framer, which skips frames of other units.  (a) The admission must not hinge on the unit of the first frame of
+    the segment: `single=True`, or a constant wildcard list.  (b) The wildcard the call relies on when that first unit is 0 / 0xFF
+    must hold: _validate_unit_id accepts every frame when the list it is given contains 0 or 0xFF."""
+    ck.rule(rule, 'the client hands every checked frame to the reply router: its receive call does not filter by the unit of the first frame, and a unit list containing 0 / 0xFF admits every frame')
+    from ..common import annotate, ret_expr
+    n = 0
+    for qn in (PROTO,):
+        k = cx.idx.cls(qn)
+        f = cx.method(k, 'dataReceived')
+        ck.saw('functions', f.qn)
+        for p in cx.enum(f, k, max_depth=0):
+            annotate(p, heap=False)
+            for e in p.ev:
+                if e.kind == 'call' and callee_name(e.node) == 'processIncomingPacket' and getattr(e, '_sub', None) is not None:
+                    n += 1
+                    c = e._sub
+                    kw = {x.arg: x.value for x in c.keywords if x.arg}
+                    unit = kw.get('unit', c.args[2] if len(c.args) > 2 else None)
+                    single = kw.get('single')
+                    free = (isinstance(single, ast.Constant) and single.value is True) or \
+                        (unit is not None and cx.ce.try_ev(unit, f.mod, k, default=None) in (0, 0xFF, [0], [0xFF], [0, 0xFF]))
+                    ck.ob(rule, f.qn, 'the receive call admits frames of every unit', free, detail='client-filters-replies-by-first-unit', loc=cx.floc(f, e.node),
+                          message='%s passes unit=`%s` to the framer: frames of the segment that carry another unit id are skipped, so with requests to several '
+                                  'units outstanding a reply that arrived is never routed to its deferred' % (f.qn, U(unit)[:60] if unit is not None else None))
+    fr = cx.idx.cls('pymodbus.framer.ModbusFramer')
+    v = cx.method(fr, '_validate_unit_id')
+    ck.saw('functions', v.qn)
+    units = v.params[1]
+    wild = {0: False, 255: False}
+    for p in cx.enum(v, fr, max_depth=0):
+        annotate(p, heap=False)
+        r = ret_expr(p)
+        for e in p.ev:
+            t = getattr(e, '_sub', None)
+            if e.kind == 'cond' and isinstance(t, ast.Compare) and len(t.ops) == 1 and isinstance(t.ops[0], ast.In) and U(t.comparators[0]) == units and e.a is True:
+                cval = cx.ce.try_ev(t.left, v.mod, fr, default=None)
+                if cval in wild and isinstance(r, ast.Constant) and r.value is True:
+                    wild[cval] = True
+    n += 1
+    ck.ob(rule, v.qn, 'a unit list containing 0 or 0xFF admits every frame', all(wild.values()), detail='no-wildcard-admission %s' % sorted(k_ for k_, ok_ in wild.items() if not ok_),
+          loc=cx.floc(v), message='_validate_unit_id no longer accepts every frame when the list of units contains 0 / 0xFF: the asynchronous client, whose list is '
+                                  'the unit of the first frame of the segment, then skips the replies of the other units that share the segment')
+    ck.floor(rule, n, 2, 'receive call and wildcard rows')
+
+
 def run(ck, tier):
     cx = Ctx()
     ck.rule('R1', 'execute: id from getNextTID assigned before buildPacket; deferred registered under that id')
@@ -249,4 +297,5 @@ def run(ck, tier):
     ck.guard(_own.rule_instance_owned, ck, cx, 'R9', _own.MANAGERS[1:], 'pending deferreds of one connection are visible to (and consumed by) another connection with the same transaction ids', 2)
     from .. import ownership as _own3
     ck.guard(_own3.rule_instance_owned, ck, cx, 'R10', _own3.TWISTED_CLIENTS, 'the receive buffer and the pending-request table of one connection are used by every other connection of the process (a fragment left by one shifts the replies of all)', 3, None, ('framer', 'transaction'))
+    ck.guard(r11_client_admits_every_reply, ck, cx)
     return cx.idx
